@@ -98,6 +98,18 @@ def shrink_case(b, text, pred):
     return S.shrink_text(text, still, budget=120)
 
 
+def keep_in_corpus(text):
+    """a minimised disagreement joins corpus/eq (run first by every later check)"""
+    import os
+    d = os.path.join(C.CORPUS, "eq")
+    os.makedirs(d, exist_ok=True)
+    p = os.path.join(d, "auto-%s.grits" % C.sha(text)[:10])
+    if not os.path.exists(p) and len(text) < 20000:
+        with open(p, "w", encoding="latin1", errors="replace") as f:
+            f.write(text)
+    return p
+
+
 def one(b, tool, text, sub="eq"):
     r = S.run_tool(tool, sub, [("x", "", text)], timeout=60)
     return r.get("x", "MISSING")
@@ -198,6 +210,7 @@ def run(b, ps, tier, seed):
                 found, a = again[0], d2
             else:
                 small = t
+        keep_in_corpus(small)
         violations.append(C.Violation(
             "EqualType violates the law '%s' on case %s, pool positions %s (queries in order of their Q index, in the replay text)" % (law, i, list(found[1:])),
             {"property": PROP, "kind": "law", "law": law, "pair": list(found[1:]), "input_text": small,
@@ -222,6 +235,7 @@ def run(b, ps, tier, seed):
                         pair = ["name", idx // n, idx % n, "impl=" + da["N"][idx], "spec=" + dm["N"][idx]]
                         break
         # the model is proved to decide bisimilarity (for WF=1): its bit is the specification's
+        keep_in_corpus(small)
         violations.append(C.Violation(
             "EqualType disagrees with equi-recursive equality on case %s (%s): %s" % (i, why, pair),
             {"property": PROP, "kind": "equality-bit", "pair": pair, "input_text": small,
